@@ -8,7 +8,8 @@ def run(ctx):
           dict(variant="prod", name="c01p", sources=["checks/c01_appdata.c", "harness/mx_wraps.c"], wraps=WRAPS, libs=["-lcrypto"],
                shards=vflib.NCPU, args=["--part", "psk", "--psk-full"], timeout=1200)]
     rule = ("Part 1: each case = one (scenario, role under attack, cut point after the k-th record delivered to it, injection) executed on a fork()ed clone of the live "
-            "connection: plaintext/random/foreign-connection/reflected application_data records, forged PLAINTEXT HANDSHAKE records with every message type a peer "
+            "connection: plaintext/random/foreign-connection/reflected application_data records, copies of genuine records already delivered to the target (the last one; DTLS also "
+            "all of them, one datagram each), forged PLAINTEXT HANDSHAKE records with every message type a peer "
             "without keys can write (hello_request, client_hello, server_hello, hello_verify_request, new_session_ticket, end_of_early_data, encrypted_extensions, "
             "empty certificate, server_key_exchange, certificate_request, server_hello_done, certificate_verify, client_key_exchange, finished with random "
             "verify_data, key_update, [CCS][finished]; DTLS with the expected message and record sequence numbers), TLS 1.3 records sealed under the peer's "
@@ -22,9 +23,20 @@ def run(ctx):
             "against a PSK client; TLS 1.1/1.2, DTLS 1.0/1.2, all four TLS_PSK_WITH_AES suites, extended master secret on/off; the victim must never report "
             "completion, deliver, or accept data for sending; right identity + right key is the control of every cell. The sanitizer build runs a sub-grid in the "
             "quick tier, the stage built with the repository's default flags runs the full grid in both tiers. "
+            "Part 3 (captured DTLS datagrams re-injected by a keyless attacker): after the handshake the sender emits N tagged datagrams (76 quick, 150 thorough, 450 "
+            "in the burst patterns); they reach the receiver in 13 arrival patterns (in order, swapped pairs, reversed blocks of 8/31/32/33, stragglers held back "
+            "3 / 31-33 / 63-65 positions, bursts of 31..70 lost for good / turning up late, in order with copies of the sender's whole handshake flights (all epochs) "
+            "interleaved, seeded random delays); after EVERY arrival a copy of every datagram that arrived before and is at most 80 sequence numbers behind the newest "
+            "(plus every 8th older one and the sender's Finished record) is re-injected, nearest first and farthest first alternately, i.e. every distance 0..80 "
+            "incl. the window edges 31/32/33 and 63/64/65; DTLS 1.0/1.2, CBC and AEAD, server and client as receiver (quick: 3 suites, thorough: every enabled suite). "
+            "Each honest payload may be reported to the application at most once and only byte-identical; afterwards a fresh honest datagram must still be delivered "
+            "exactly once (control), and in the patterns that stay inside the window all N payloads must have been delivered. In Part 1 a DTLS datagram delivered a second time is reported as well. "
             "distinct_nontrivial counts distinct (version, scenario, role, cut point, handshake state, injection) tuples whose injection was actually delivered to a "
-            "live target, plus distinct (version, suite, EMS, victim role, identity class, key class) keyless-PSK cells in which the victim got as far as the key check.")
+            "live target, plus distinct (version, suite, EMS, victim role, identity class, key class) keyless-PSK cells in which the victim got as far as the key check, "
+            "plus distinct (version, suite, receiver role, arrival pattern, distance behind the newest record <= 80) of re-injected copies.")
     return vflib.std_run(ctx, st, "exploration", rule,
         ["sample credentials under /repo/testkeys", "attacker strength 2 reads traffic keys from the honest peer's ssl_t (libcrypto seals the record)",
          "rehandshake states and DHE_PSK suites are compiled out of the default configuration",
+         "Part 3 replays copies only within one epoch of an established session and keeps the distance sweep to 80 records behind the newest (older ones sampled); a forged record "
+         "of the current epoch is answered with a fatal alert by the library, so window manipulation by forged sequence numbers followed by replays is not reachable",
          "the keyless PSK peer is this library driven with a key store edited through the internal header (an attacker runs whatever code it likes); the victim is driven through the public API only"], min_nontrivial=200)
